@@ -1,6 +1,8 @@
 package engine
 
 import (
+	"bufio"
+	"net"
 	"net/http"
 	"sync"
 	"net/http/httptest"
@@ -191,4 +193,74 @@ func VerifH_C02_ws_frames() {
 			verif.Assert(msgs[i] == want[i] && kinds[i] == wantText[i], "in order, identical bytes, same kind")
 		}
 	}
+}
+
+// hijackWriter lets the engine's real Upgrade run over an in-memory net.Pipe: writes on a
+// pipe block until the peer reads, which is how a slow client looks to the server.
+type hijackWriter struct {
+	conn net.Conn
+	hdr  http.Header
+}
+
+func (h *hijackWriter) Header() http.Header {
+	if h.hdr == nil {
+		h.hdr = http.Header{}
+	}
+	return h.hdr
+}
+func (h *hijackWriter) Write(b []byte) (int, error) { return h.conn.Write(b) }
+func (h *hijackWriter) WriteHeader(int)             {}
+func (h *hijackWriter) Hijack() (net.Conn, *bufio.ReadWriter, error) {
+	return h.conn, bufio.NewReadWriter(bufio.NewReader(h.conn), bufio.NewWriter(h.conn)), nil
+}
+
+// VerifH_C09_ws_duplicate_probe: a client repeats the upgrade probe back to back and is
+// slow to read: the server answers both probes and must not crash.  (Symbolically the two
+// writer goroutines may be preempted at their atomic operations and the connection model
+// panics on overlapping writers exactly as the library does; natively the exchange runs
+// over an in-memory pipe whose writes block until the client reads.)
+func VerifH_C09_ws_duplicate_probe() {
+	ps := NewServer(config.DefaultServerOptions()).(*server)
+	hctx, _ := newCtx("GET", "/engine.io/")
+	hctx.Query().Set("transport", transports.POLLING)
+	hctx.Query().Set("EIO", "4")
+	_, tr := ps.Handshake(transports.POLLING, hctx)
+	verif.Assume(tr != nil)
+	query := "EIO=4&transport=websocket&sid=" + tr.Sid()
+	probes := 0
+	if verif.Symbolic() {
+		verif.PreemptBudget(1 + verif.Tier())
+		got := dialWS(ps, query, []zzmodels.WsMsg{{ws.TextMessage, []byte("2probe")}, {ws.TextMessage, []byte("2probe")}})
+		verif.PreemptBudget(0)
+		for _, m := range got {
+			if string(m.Data) == "3probe" {
+				probes++
+			}
+		}
+	} else {
+		cli, srv := net.Pipe()
+		go func() {
+			req, err := http.ReadRequest(bufio.NewReader(srv))
+			if err != nil {
+				return
+			}
+			ps.ServeHTTP(&hijackWriter{conn: srv}, req)
+		}()
+		c, _, err := ws.NewClient(cli, mustURL("ws://engine.test/engine.io/?"+query), nil, 1024, 1024)
+		if err != nil {
+			panic(verif.AssumeFailed{Msg: "native websocket handshake over the pipe failed: " + err.Error()})
+		}
+		c.WriteMessage(ws.TextMessage, []byte("2probe"))
+		c.WriteMessage(ws.TextMessage, []byte("2probe"))
+		time.Sleep(300 * time.Millisecond) // a slow reader
+		c.SetReadDeadline(time.Now().Add(2 * time.Second))
+		for i := 0; i < 2; i++ {
+			_, data, err := c.ReadMessage()
+			if err == nil && string(data) == "3probe" {
+				probes++
+			}
+		}
+		c.Close()
+	}
+	verif.Assert(probes == 2, "both probe pings are answered")
 }
